@@ -17,6 +17,7 @@ var registry = map[string]core.Harness{
 	"C47": UND{},
 	"C08": GCX{},
 	"C35": REM{},
+	"C45": REP{},
 }
 
 func TestSim(t *testing.T) { core.WorkerMain(t, registry) }
